@@ -160,55 +160,6 @@ Proof.
   destruct (m_content m) as [| | |[p|]|]; try reflexivity. exfalso. apply (H p). reflexivity.
 Qed.
 
-(* the device's key number never changes *)
-Lemma set_peer_pk st x : d_pk (set_peer st x) = d_pk st.
-Proof. reflexivity. Qed.
-
-Lemma step_pk st e : d_pk (fst (step st e)) = d_pk st.
-Proof.
-  destruct e as [now m q al nonce body|now p hid body|now d on|d|p d|p d]; cbn [step].
-  - unfold recv. destruct (gate m); [|reflexivity]. cbn [negb].
-    destruct (m_type m =? MessageTransportType).
-    { unfold recv_transport. destruct (m_content m) as [| | |[p|]|]; try reflexivity.
-      destruct (find_peer (d_peers st) p); reflexivity. }
-    destruct (m_type m =? MessageCookieReplyType).
-    { unfold recv_cookie. destruct (m_content m) as [| |[p|] enc| |]; try reflexivity.
-      destruct (find_peer (d_peers st) p) as [x|]; [|reflexivity].
-      destruct (consume_reply (p_id x) (p_gen x) now enc); reflexivity. }
-    unfold recv_handshake, hs_gates.
-    destruct (check_mac1 (d_pk st) m); [|reflexivity]. cbn [negb].
-    assert (L : d_pk (fst (is_under_load st now q)) = d_pk st) by (unfold is_under_load; destruct q; reflexivity).
-    assert (C : forall s, d_pk s = d_pk st -> d_pk (fst (consume s now m body)) = d_pk st).
-    { intros s Hs. unfold consume, consume_init, consume_resp.
-      destruct (m_type m =? MessageInitiationType).
-      - destruct (m_content m) as [[p|] [|]| | | |]; try exact Hs.
-        destruct (find_peer (d_peers s) p) as [x|]; [|exact Hs].
-        destruct (add_macs (p_id x) (p_gen x) now (TBody body)) as [[g m1] m2]. exact Hs.
-      - destruct (m_content m) as [|[p|] h| | |]; try exact Hs.
-        destruct (find_peer (d_peers s) p) as [x|]; [|exact Hs].
-        destruct ((p_hs x =? 1) && (p_hid x =? h)); exact Hs. }
-    destruct (is_under_load st now q) as [st1 ul]. cbn [fst] in L.
-    destruct ul.
-    + destruct (check_mac2 st1 now m); cbn [negb].
-      * destruct al; cbn [negb]; [apply C; exact L|exact L].
-      * unfold create_reply, refresh. destruct (secret_stale st1 now); exact L.
-    + apply C; exact L.
-  - unfold tun. destruct (find_peer (d_peers st) p) as [x|]; [|reflexivity].
-    destruct (p_has_cur x); [reflexivity|].
-    destruct (now - p_last_sent x <? RekeyTimeout); [reflexivity|].
-    destruct (add_macs (p_id x) (p_gen x) now (TBody body)) as [[g m1] m2]. reflexivity.
-  - reflexivity.
-  - destruct (d_has_secret st); reflexivity.
-  - destruct (find_peer (d_peers st) p); reflexivity.
-  - destruct (find_peer (d_peers st) p); reflexivity.
-Qed.
-
-Lemma final_pk evs : forall st, d_pk (final step st evs) = d_pk st.
-Proof.
-  intros st. apply (final_inv step (fun s => d_pk s = d_pk st)); [|reflexivity].
-  intros s o H. rewrite step_pk. exact H.
-Qed.
-
 Lemma final_cons s e l : final step s (e :: l) = final step (fst (step s e)) l.
 Proof. unfold final. cbn [run]. destruct (step s e) as [s1 r]. cbn [fst]. destruct (run step s1 l). reflexivity. Qed.
 
@@ -218,14 +169,14 @@ Proof. unfold outs. cbn [run]. destruct (step s e) as [s1 r]. cbn [fst snd]. des
 (* For every history: a datagram without a valid MAC1 (or of unknown type, or of a wrong
    size) can be deleted from the history without any effect on what the device does or is. *)
 Theorem stranger_datagram_erasable st pre post now m q al nonce body :
-  gate m = false \/ (is_hs m = true /\ check_mac1 (d_pk st) m = false) ->
+  gate m = false \/ (is_hs m = true /\ check_mac1 (d_pk (final step st pre)) m = false) ->
   final step st (pre ++ ERecv now m q al nonce body :: post) = final step st (pre ++ post) /\
   outs step st (pre ++ ERecv now m q al nonce body :: post) =
     outs step st pre ++ [] :: outs step (final step st pre) post.
 Proof.
   intros H.
   assert (S : step (final step st pre) (ERecv now m q al nonce body) = (final step st pre, [])).
-  { apply no_valid_mac1_silent_inert. rewrite final_pk. exact H. }
+  { apply no_valid_mac1_silent_inert. exact H. }
   split.
   - rewrite !final_app, final_cons, S. reflexivity.
   - rewrite outs_app, outs_cons, S. reflexivity.
@@ -470,22 +421,22 @@ Qed.
 (* Along every history the secret only ages while its number stays the same. *)
 Definition older (a b : dstate) : Prop :=
   d_epoch a <= d_epoch b /\
-  (d_epoch a = d_epoch b -> d_has_secret a = true ->
-   d_has_secret b = true /\ d_secret_set b <= d_secret_set a).
+  (d_epoch a = d_epoch b -> d_has_secret b = true ->
+   d_has_secret a = true /\ d_secret_set b <= d_secret_set a).
 
 Lemma older_refl a : older a a.
 Proof. split; [lia|]. intros _ H. split; [exact H|lia]. Qed.
 
 Lemma older_trans a b c : older a b -> older b c -> older a c.
 Proof.
-  intros [A1 A2] [B1 B2]. split; [lia|]. intros E Ha.
+  intros [A1 A2] [B1 B2]. split; [lia|]. intros E Hc.
   assert (X1 : d_epoch a = d_epoch b) by lia. assert (X2 : d_epoch b = d_epoch c) by lia.
-  destruct (A2 X1 Ha) as [Hb Sb]. destruct (B2 X2 Hb) as [Hc Sc]. split; [exact Hc|lia].
+  destruct (B2 X2 Hc) as [Hb Sb]. destruct (A2 X1 Hb) as [Ha Sa]. split; [exact Ha|lia].
 Qed.
 
 Lemma same_checker_older a b :
   d_has_secret b = d_has_secret a -> d_epoch b = d_epoch a -> d_secret_set b = d_secret_set a -> older a b.
-Proof. intros H1 H2 H3. split; [lia|]. intros _ Ha. rewrite H1, H3. split; [exact Ha|lia]. Qed.
+Proof. intros H1 H2 H3. split; [lia|]. intros _ Hb. rewrite <- H1, H3. split; [exact Hb|lia]. Qed.
 
 Lemma refresh_older s now : older s (refresh s now).
 Proof.
@@ -511,7 +462,7 @@ Ltac oldr := first [apply older_refl | apply same_checker_older; reflexivity].
 
 Lemma step_older st e : older st (fst (step st e)).
 Proof.
-  destruct e as [now m q al nonce body|now p hid body|now d on|d|p d|p d]; cbn [step].
+  destruct e as [now m q al nonce body|now p hid body|now d on|d|p d|p d|now k]; cbn [step].
   - unfold recv. destruct (gate m); [|oldr]. cbn [negb].
     destruct (m_type m =? MessageTransportType).
     { unfold recv_transport. destruct (m_content m) as [| | |[p|]|]; try oldr.
@@ -539,9 +490,11 @@ Proof.
     destruct (add_macs (p_id x) (p_gen x) now (TBody body)) as [[g m1] m2]. oldr.
   - oldr.
   - destruct (d_has_secret st) eqn:Hs; [|oldr].
-    unfold older. cbn [with_secret d_epoch d_has_secret d_secret_set fst]. split; [lia|]. intros _ _. split; [reflexivity|lia].
+    unfold older. cbn [with_secret d_epoch d_has_secret d_secret_set fst]. split; [lia|]. intros _ _. split; [exact Hs|lia].
   - destruct (find_peer (d_peers st) p); oldr.
   - destruct (find_peer (d_peers st) p); oldr.
+  - (* a new identity: the secret counts as not drawn *)
+    unfold older. cbn [fst set_identity d_epoch d_has_secret d_secret_set]. split; [lia|]. intros _ X. discriminate.
 Qed.
 
 Lemma final_older evs : forall st, older st (final step st evs).
@@ -603,7 +556,7 @@ Proof.
     - exfalso; exact (NC _ _ E). }
   destruct F as (Fc & Fh & Fs). rewrite Fc in Ec. inversion Ec as [[Ee Ea]].
   destruct (final_older mid st1) as [_ O2]. fold st2 in O2.
-  destruct (O2 Ee Fh) as [_ Set2]. lia.
+  destruct (O2 Ee Hs2) as [_ Set2]. lia.
 Qed.
 
 (* ------------------------------------------- the under-load period slides *)
@@ -642,3 +595,16 @@ Proof.
   intros G H M1 T. unfold under_load, is_under_load. cbn [snd].
   rewrite (load_period_slides st now m al nonce body G H M1). apply N.ltb_lt. exact T.
 Qed.
+
+(* ---------------------------------------------- identity change or removal *)
+
+Theorem old_identity_mac1_rejected st now k now2 m q al nonce body :
+  is_hs m = true -> check_mac1 k m = false ->
+  step (fst (step st (ESetIdentity now k))) (ERecv now2 m q al nonce body) = (fst (step st (ESetIdentity now k)), []).
+Proof.
+  intros H M. apply no_valid_mac1_silent_inert. right. split; [exact H|]. exact M.
+Qed.
+
+Theorem identity_change_voids_cookies st now k now2 m :
+  check_mac2 (fst (step st (ESetIdentity now k))) now2 m = false.
+Proof. reflexivity. Qed.
